@@ -268,3 +268,63 @@ VARIANTS = [
       "        serializer = config.serialize_handlers[type(obj)]", "        serializer = config.serialize_handlers[obj.__class__.__mro__[-2]]"),
     E("X52-hard-coded-serialize-name", "fire", ["C20"], "jsonclass", "    if hasattr(obj, serialize_method):", '    if hasattr(obj, "_serialize"):'),
 ]
+
+
+# ---- more silent variants (jsonclass family) ---------------------------------------------------------------
+def load_without_pop(tree):
+    """iterate without popping the descriptor instead of pop / try / finally / restore"""
+    f = _find_func(tree, None, "load")
+    body = f.body
+    for i, st in enumerate(body):
+        if isinstance(st, ast.Assign) and "obj.pop('__jsonclass__')" in ast.unparse(st.value):
+            new = ast.parse(
+                "for key, value in obj.items():\n"
+                "    if key != '__jsonclass__':\n"
+                "        setattr(new_obj, key, load(value, classes))\n").body
+            # drop: pop, try/finally
+            j = i + 1
+            while j < len(body) and not isinstance(body[j], ast.Return):
+                j += 1
+            body[i:j] = new
+            return tree
+    return None
+
+
+def append_loop_in_load(tree):
+    f = _find_func(tree, None, "load")
+    for holder in ast.walk(f):
+        for field in ("body", "orelse"):
+            blk = getattr(holder, field, None)
+            if isinstance(blk, list):
+                for i, st in enumerate(blk):
+                    if isinstance(st, ast.Return) and isinstance(st.value, ast.ListComp):
+                        blk[i:i + 1] = ast.parse("result = []\nfor entry in obj:\n    result.append(load(entry, classes))\nreturn result").body
+                        return tree
+    return None
+
+
+VARIANTS += [
+    A("S21-load-iterates-without-popping", "silent", ["C07", "C08", "C15"], "jsonclass", load_without_pop),
+    A("S22-append-loop-instead-of-comprehension", "silent", ["C15", "C07"], "jsonclass", append_loop_in_load),
+    E("S23-list-of-generator", "silent", ["C15", "C20"], "jsonclass",
+      "        return [\n            dump(item, serialize_method, ignore_attribute, ignore, config)\n            for item in obj\n        ]",
+      "        return list(\n            dump(item, serialize_method, ignore_attribute, ignore, config)\n            for item in obj\n        )"),
+    E("S24-name-comparison-mirrored", "silent", ["C08"], "jsonclass",
+      "    if json_module_clean != orig_module_name:", "    if orig_module_name != json_module_clean:"),
+    E("S25-ignore-list-order-swapped", "silent", ["C20"], "jsonclass",
+      "        ignore_list = getattr(obj, ignore_attribute, []) + ignore", "        ignore_list = ignore + getattr(obj, ignore_attribute, [])"),
+    E("S26-handler-lookup-with-get", "silent", ["C20", "C15"], "jsonclass",
+      "    try:\n        serializer = config.serialize_handlers[type(obj)]\n    except KeyError:\n        # Not a serializer\n        pass\n    else:\n        if serializer is not None:",
+      "    serializer = config.serialize_handlers.get(type(obj))\n    if True:\n        if serializer is not None:"),
+    E("S27-fullmatch-validation", "silent", ["C08"], "jsonclass",
+      "    json_module_clean = re.sub(INVALID_MODULE_CHARS, \"\", orig_module_name)\n    if json_module_clean != orig_module_name:",
+      "    json_module_clean = orig_module_name\n    if not re.fullmatch(r\"[a-zA-Z0-9_.]+\", orig_module_name):"),
+    E("S28-classes-keyword-in-recursion", "silent", ["C07"], "jsonclass",
+      "        return {key: load(value, classes) for key, value in obj.items()}", "        return {key: load(value, classes=classes) for key, value in obj.items()}"),
+    E("S29-copy-with-keywords", "silent", ["C13", "C07", "C20"], "config",
+      "        new_config = Config(\n            self.version,\n            self.content_type,\n            self.user_agent,\n            self.use_jsonclass,\n            self.serialize_method,\n            self.ignore_attribute,\n            None,\n        )",
+      "        new_config = Config(\n            version=self.version,\n            content_type=self.content_type,\n            user_agent=self.user_agent,\n            use_jsonclass=self.use_jsonclass,\n            serialize_method=self.serialize_method,\n            ignore_attribute=self.ignore_attribute,\n        )"),
+    E("S30-close-then-raise-same", "silent", ["C19"], "jsonrpc",
+      "            if response.status == 200:\n                self.verbose = verbose\n                return self.parse_response(response)",
+      "            if response.status == 200:\n                self.verbose = verbose\n                parsed = self.parse_response(response)\n                return parsed"),
+]
